@@ -148,6 +148,20 @@ func (configgen *ConfigGeneratorImpl) BuildDeltaClusters(proxy *model.Proxy, upd
 
 		deletedClusters.InsertAll(deleted...)
 	}
+	if !servicesDiffed {
+		// The updated configs do not always tell which services went away: an earlier push may have been generated
+		// from a snapshot that already contained a later change (registries are updated before the change is
+		// debounced), so that the proxy's previous scope no longer holds the removed service and its key is
+		// filtered out as irrelevant when its own push arrives. Always reconcile the watched clusters with the
+		// services the proxy imports now.
+		svcs, deleted := configgen.deltaFromServiceDiff(proxy, updates.Push, serviceClusters, servicePortClusters, subsetClusters)
+		for _, svc := range svcs {
+			if !have.InsertContains(svc.Hostname.String()) {
+				services = append(services, svc)
+			}
+		}
+		deletedClusters.InsertAll(deleted...)
+	}
 	envoyFilterPatches := updates.Push.EnvoyFilters(proxy)
 	clusters, log := configgen.buildClusters(proxy, updates, services, envoyFilterPatches)
 	// DeletedClusters contains list of all subset clusters for the deleted DR or updated DR.
